@@ -152,6 +152,8 @@ pub struct Stats {
     pub rejections: u64,
     pub multi_blocker: u64,
     pub mid_rej_later_acc: u64,
+    pub blocker_after_rejected: u64,
+    pub kinds: BTreeSet<String>,
     pub scope_hash_ties: u64,
     pub kinds_disagree_on_order_key: u64,
     pub kinds_identical: u64,
@@ -166,6 +168,8 @@ impl Stats {
         self.rejections += o.rejections;
         self.multi_blocker += o.multi_blocker;
         self.mid_rej_later_acc += o.mid_rej_later_acc;
+        self.blocker_after_rejected += o.blocker_after_rejected;
+        self.kinds.extend(o.kinds);
         self.scope_hash_ties += o.scope_hash_ties;
         self.kinds_disagree_on_order_key += o.kinds_disagree_on_order_key;
         self.kinds_identical += o.kinds_identical;
@@ -391,29 +395,58 @@ pub fn check_case(r: &Report, kind: SchedulerKind, seq: &[(usize, usize)], st: &
         }
         st.keys.push(Report::key(&kb));
     }
-    if exp.blocked_by.iter().any(|b| b.len() >= 2) {
-        st.multi_blocker += 1;
-    }
     let abs: Vec<AbsFp> = exp.entries.iter().map(|&(k, s, _)| rule_abs(k, s)).collect();
-    for j in 0..abs.len() {
-        for i in (j + 1)..abs.len() {
-            if !exp.entries[j].2 && exp.entries[i].2 && conflict(&abs[j], &abs[i]) {
-                st.mid_rej_later_acc += 1;
-            }
-        }
-    }
+    let dec: Vec<bool> = exp.entries.iter().map(|e| e.2).collect();
+    let f = features(&abs, &dec, &exp.blocked_by);
+    st.multi_blocker += f.multi_blocker as u64;
+    st.mid_rej_later_acc += f.rejected_then_accepted;
+    st.blocker_after_rejected += f.blocker_after_rejected as u64;
+    st.kinds.extend(f.kinds);
     let pat: String = exp.entries.iter().map(|e| if e.2 { 'A' } else { 'R' }).collect();
     *st.patterns.entry(pat).or_insert(0) += 1;
     Some(obs)
 }
 
-/// Candidate (rule, scope) pairs.  Thorough: all 16.  Quick: 10 that still contain every
-/// conflict kind (node W/W, W/R, R/W, R/R; edge; attachment; port in/out) — one engine tick costs
-/// milliseconds, so quick cannot afford 16^4 ticks.
-pub fn candidates(r: &Report) -> Vec<(usize, usize)> {
-    if r.quick() {
-        return vec![(0, 0), (0, 1), (1, 0), (2, 0), (3, 0), (3, 1), (4, 0), (5, 0), (6, 0), (7, 0)];
+/// What a reference receipt exercises (computed from the reference only).
+#[derive(Default)]
+pub struct Features {
+    pub multi_blocker: bool,
+    /// pairs (j rejected, later i accepted although it conflicts with j)
+    pub rejected_then_accepted: u64,
+    /// some blocker has a rejected entry before it (entry index != index among accepted)
+    pub blocker_after_rejected: bool,
+    /// conflict kinds between a blocker and the candidate it blocks
+    pub kinds: BTreeSet<String>,
+}
+
+pub fn features(abs: &[AbsFp], dec: &[bool], blk: &[Vec<u32>]) -> Features {
+    let mut f = Features::default();
+    for i in 0..abs.len() {
+        if blk[i].len() >= 2 {
+            f.multi_blocker = true;
+        }
+        for &b in &blk[i] {
+            if dec[..b as usize].iter().any(|a| !*a) {
+                f.blocker_after_rejected = true;
+            }
+            f.kinds.extend(conflict_kinds(&abs[b as usize], &abs[i]));
+        }
+        for j in 0..i {
+            if !dec[j] && dec[i] && conflict(&abs[j], &abs[i]) {
+                f.rejected_then_accepted += 1;
+            }
+        }
     }
+    f
+}
+
+const REQUIRED_KIND_PREFIXES: [&str; 6] = ["node:W>R", "node:R>W", "node:W>W", "edge:", "att:", "port:"];
+
+fn covers(multi: bool, rta: bool, bar: bool, kinds: &BTreeSet<String>) -> bool {
+    multi && rta && bar && REQUIRED_KIND_PREFIXES.iter().all(|p| kinds.iter().any(|k| k.starts_with(p)))
+}
+
+fn all_candidates() -> Vec<(usize, usize)> {
     let mut c = Vec::new();
     for k in 0..N_RULES {
         for s in 0..N_SCOPES {
@@ -421,6 +454,42 @@ pub fn candidates(r: &Report) -> Vec<(usize, usize)> {
         }
     }
     c
+}
+
+/// Candidate (rule, scope) pairs.  Thorough: all 16.  Quick: one engine tick costs milliseconds,
+/// so quick uses 8 of the 16 — the lexicographically first 8-subset whose 4-candidate ticks (in
+/// scope-hash order, by the reference) contain a candidate with two blockers, a rejected candidate
+/// followed by an accepted one that conflicts with it, a blocker preceded by a rejected entry,
+/// and every conflict kind (node W>R, R>W, W>W; edge; attachment; port).  The choice depends on
+/// the BLAKE3 scope hashes only, so it is deterministic.
+pub fn candidates(r: &Report) -> Vec<(usize, usize)> {
+    let all = all_candidates();
+    if !r.quick() {
+        return all;
+    }
+    let hashes: Vec<Hash> = all.iter().map(|&(k, s)| ref_scope_hash(k, s)).collect();
+    let abs: Vec<AbsFp> = all.iter().map(|&(k, s)| rule_abs(k, s)).collect();
+    for sub in mc::enumerate::subsets_k(all.len(), 8) {
+        let (mut multi, mut rta, mut bar) = (false, false, false);
+        let mut kinds = BTreeSet::new();
+        for four in mc::enumerate::subsets_k(8, 4) {
+            let mut ix: Vec<usize> = four.iter().map(|&i| sub[i]).collect();
+            ix.sort_by_key(|&i| hashes[i]);
+            let a: Vec<AbsFp> = ix.iter().map(|&i| abs[i].clone()).collect();
+            let refs: Vec<&AbsFp> = a.iter().collect();
+            let (dec, blk) = ref_admission(&refs);
+            let f = features(&a, &dec, &blk);
+            multi |= f.multi_blocker;
+            rta |= f.rejected_then_accepted > 0;
+            bar |= f.blocker_after_rejected;
+            kinds.extend(f.kinds);
+        }
+        if covers(multi, rta, bar, &kinds) {
+            return sub.iter().map(|&i| all[i]).collect();
+        }
+    }
+    r.machinery_error("no 8-candidate subset covers the required receipt features");
+    all[..8].to_vec()
 }
 
 pub fn run(r: &Report) {
@@ -482,7 +551,15 @@ pub fn run(r: &Report) {
         r.outcome_n(&format!("receipt-dispositions:{p}"), *c);
     }
     r.guard("receipt_rejections_seen", st.rejections > 0);
+    r.counter("receipt_runs_with_blocker_preceded_by_rejected_entry", st.blocker_after_rejected);
+    r.note("receipt_conflict_kinds_between_blocker_and_blocked", json!(st.kinds));
+    r.note("receipt_candidates[rule,scope]", json!(cands.iter().map(|(k, s)| json!([RULE_NAMES[*k], s])).collect::<Vec<_>>()));
     r.guard("receipt_multi_blocker_seen", st.multi_blocker > 0);
+    r.guard("receipt_blocker_preceded_by_rejected_entry_seen", st.blocker_after_rejected > 0);
+    r.guard(
+        "receipt_all_conflict_kinds_seen",
+        REQUIRED_KIND_PREFIXES.iter().all(|p| st.kinds.iter().any(|k| k.starts_with(p))),
+    );
     r.guard("receipt_rejected_candidate_did_not_block_seen", st.mid_rej_later_acc > 0);
     r.guard("receipt_distinct_disposition_patterns_gt_3", st.patterns.len() > 3);
     r.nontrivial_many(st.keys);
